@@ -2,6 +2,7 @@ package main
 
 import (
 	"fmt"
+	"go/token"
 	"go/constant"
 	"sort"
 	"strings"
@@ -146,30 +147,16 @@ func rulesRCFlow(c *Ctx, r *Report, cb *ssa.Function) {
 		// every output byte is that call's result
 		outOK, outWhy := rcOutputsAre(f, calls[0])
 		r.check(outOK, "FLOW-RC", where, "output bytes", c.pos(f.Pos()), "every byte appended/written is the result of that complementByte call", outWhy)
-		// loop shape
-		phi, _ := idx.Val.(*ssa.Phi)
-		if phi == nil || len(phi.Edges) != 2 {
-			r.undecided("SIB4", where, "loop", c.pos(f.Pos()), "source index is not a simple loop variable")
+		// loop shape: the sequence of source indices over the iterations
+		law, why := indexLawOf(s, f, idx.Val)
+		if law == nil {
+			r.undecided("SIB4", where, "loop", c.pos(f.Pos()), "source index is not an affine function of a counted loop variable: "+why)
 			continue
 		}
-		d := loopDesc{elem: "elem(src," + idx.String() + ")"}
-		for _, e := range phi.Edges {
-			es := s.expr(e)
-			if dependsOn(e, phi, map[ssa.Value]bool{}) {
-				d.step = linSub(linOf(es), linOf(idx)).String()
-			} else {
-				d.init = strings.ReplaceAll(es.String(), srcName, "SRC")
-			}
-		}
-		for _, ref := range *phi.Referrers() {
-			if b, ok := ref.(*ssa.BinOp); ok {
-				if iff, ok := b.Block().Instrs[len(b.Block().Instrs)-1].(*ssa.If); ok && iff.Cond == b && b.Block() == phi.Block() {
-					d.cond = strings.ReplaceAll(s.expr(b).String(), idx.String(), "IDX")
-				}
-			}
-		}
-		okShape := d.init == "(builtin:len(SRC) - 1)" && d.step == "-1" && d.cond == "(0 <= IDX)"
-		r.check(okShape, "SIB4", where, "loop bounds", c.pos(phi.Pos()), "index runs from len(src)-1 down to 0 in steps of 1", fmt.Sprintf("loop is init=%s step=%s cond=%s, want init=(len(src)-1) step=-1 cond=(0 <= i): not every element is visited exactly once from the end", d.init, d.step, d.cond))
+		d := loopDesc{elem: "elem(src)", init: strings.ReplaceAll(law.first.String(), srcName, "SRC"), step: fmt.Sprint(law.delta), cond: fmt.Sprint(law.condIsIdxNonNeg, law.onlyExit)}
+		okShape := d.init == "1*builtin:len(SRC) + -1" && law.delta == -1 && law.condIsIdxNonNeg && law.onlyExit
+		r.check(okShape, "SIB4", where, "loop bounds", c.pos(f.Pos()), "the source index starts at len(src)-1, decreases by 1 per iteration, and the loop runs exactly while it is >= 0 (no other exit): every element is read once, last to first",
+			fmt.Sprintf("the source index starts at [%s], changes by %d per iteration, loop runs exactly while index >= 0: %v, no other exit: %v — want start len(src)-1, step -1: not every element is visited exactly once from the end", d.init, law.delta, law.condIsIdxNonNeg, law.onlyExit))
 		descs = append(descs, d)
 	}
 	if len(descs) == 2 {
@@ -221,4 +208,120 @@ func rcOutputsAre(f *ssa.Function, call *ssa.Call) (bool, string) {
 		return false, "no append/WriteByte found"
 	}
 	return why == "", why
+}
+
+// indexLaw describes how an index expression evolves over the iterations of the loop that computes it.
+type indexLaw struct {
+	first           linForm // value in the first iteration
+	delta           int64   // change per iteration
+	condIsIdxNonNeg bool    // the loop's continuation test is equivalent to idx >= 0
+	onlyExit        bool    // the loop has no exit other than that test (panics aside)
+}
+
+// indexLawOf: idx must be an affine function of one loop-header phi with a constant step.
+func indexLawOf(s *symb, f *ssa.Function, idx ssa.Value) (*indexLaw, string) {
+	// the phi: search idx's operands
+	var phi *ssa.Phi
+	seen := map[ssa.Value]bool{}
+	var find func(v ssa.Value)
+	find = func(v ssa.Value) {
+		if v == nil || seen[v] || phi != nil {
+			return
+		}
+		seen[v] = true
+		if p, ok := v.(*ssa.Phi); ok {
+			if len(naturalLoop(p.Block())) > 1 {
+				phi = p
+				return
+			}
+		}
+		if b, ok := v.(*ssa.BinOp); ok {
+			find(b.X)
+			find(b.Y)
+		}
+		if cv, ok := v.(*ssa.Convert); ok {
+			find(cv.X)
+		}
+	}
+	find(idx)
+	if phi == nil {
+		return nil, "no loop variable in the index"
+	}
+	pname := s.expr(phi).String()
+	lidx := linOf(s.expr(idx))
+	alpha := lidx.coef[pname]
+	if alpha == 0 {
+		return nil, "index does not depend linearly on the loop variable"
+	}
+	nl := naturalLoop(phi.Block())
+	var init *linForm
+	var step int64
+	haveStep := false
+	for i, e := range phi.Edges {
+		if nl[phi.Block().Preds[i]] {
+			d := linSub(linOf(s.expr(e)), linOf(s.expr(phi)))
+			nz := 0
+			for _, cf := range d.coef {
+				if cf != 0 {
+					nz++
+				}
+			}
+			if nz != 0 || (haveStep && d.k != step) {
+				return nil, "loop variable is not advanced by a constant"
+			}
+			step, haveStep = d.k, true
+		} else {
+			l := linOf(s.expr(e))
+			init = &l
+		}
+	}
+	if init == nil || !haveStep {
+		return nil, "loop variable has no initial value or no step"
+	}
+	// first = lidx with P := init
+	first := linForm{coef: map[string]int64{}, k: lidx.k + alpha*init.k}
+	for x, cf := range lidx.coef {
+		if x != pname {
+			first.coef[x] += cf
+		}
+	}
+	for x, cf := range init.coef {
+		first.coef[x] += alpha * cf
+	}
+	law := &indexLaw{first: first, delta: alpha * step}
+	// continuation test at the header
+	if iff, ok := lastInstr(phi.Block()).(*ssa.If); ok {
+		if bo, ok := iff.Cond.(*ssa.BinOp); ok {
+			x, y := linOf(s.expr(bo.X)), linOf(s.expr(bo.Y))
+			var g linForm
+			okOp := true
+			switch bo.Op {
+			case token.LSS:
+				g = linSub(y, x)
+				g.k--
+			case token.LEQ:
+				g = linSub(y, x)
+			case token.GTR:
+				g = linSub(x, y)
+				g.k--
+			case token.GEQ:
+				g = linSub(x, y)
+			default:
+				okOp = false
+			}
+			// continue on the true edge into the loop
+			if okOp && nl[phi.Block().Succs[0]] && !nl[phi.Block().Succs[1]] {
+				law.condIsIdxNonNeg = linSub(g, lidx).String() == "0"
+			}
+		}
+	}
+	law.onlyExit = true
+	for b := range nl {
+		for _, su := range b.Succs {
+			if !nl[su] && b != phi.Block() && !blockAlwaysPanics(su) {
+				law.onlyExit = false
+			}
+		}
+	}
+	return law, ""
 }
